@@ -155,4 +155,25 @@ theorem guard3_rho_returns {o : Oracle σ} (t : σ) (n : Nat) (as : List Nat) (b
   · exact Ymq.C03Rho.rho_no_panic_call_site n hg.1 hg.2
   · rw [if_neg hg] at h; simp at h
 
+/-- on an outer `some` (the model returned normally) `.join` loses nothing -/
+theorem join_eq_iff_of_some {α} {x : Option (Option α)} (hx : ∃ y, x = some y) (r : Option α) :
+    x.join = r ↔ x = some r := by
+  obtain ⟨y, rfl⟩ := hx
+  simp only [Option.join_some, Option.some.injEq]
+
+/-- the model of `pollard_rho::rho` returns normally (no panic site of `rho64`, no refusal of
+`mg_2adic_inv`) on EVERY call-site argument -/
+theorem rho_total_on_guard {n : Nat} (hg : RhoGuard n) : ∃ r, Ymq.PollardRho.rho n = some r :=
+  Ymq.C03Rho.rho_no_panic_call_site n hg.1 hg.2
+
+/-- on the call-site guard the `.join` of `RhoModel` is harmless: "panic read as `None`" cannot occur -/
+theorem rho_join_iff_on_guard {n : Nat} (hg : RhoGuard n) (r : Option (List Nat × Nat)) :
+    (Ymq.PollardRho.rho n).join = r ↔ Ymq.PollardRho.rho n = some r :=
+  join_eq_iff_of_some (rho_total_on_guard hg) r
+
+/-- below the size limit of `factor` the `.join` of `PerfectPowerModel` is harmless -/
+theorem pp_join_iff_small {n : Nat} (hn : n < 2 ^ 1024) (r : Option (Nat × Nat)) :
+    (Ymq.Arith.perfectPower n).join = r ↔ Ymq.Arith.perfectPower n = some r :=
+  join_eq_iff_of_some (Ymq.C08.perfect_power_no_panic n hn) r
+
 end Ymq.Factor
